@@ -311,7 +311,7 @@ def run(tier):
                    ["the class used but not imported is `Foo`; the workspace has modules A, B, C (and E) of fixed texts",
                     "documents are ASCII; positions are (zero-based line, zero-based byte column)",
                     "a fresh ServerState on the edited text is 'the document after applying the edits' as the property means it",
-                    "toplevels are compared through the printer (pretty_print_toplevel, comments included)",
+                    "toplevels are compared through the printer (pretty_print_toplevel) after blanking out comments: the same program does not speak of comments; proposals that only move a comment to another node are counted",
                     "TLC 1.8.0 and the CommunityModules Json/IOUtils/SequencesExt overrides are correct"],
                    time.time() - t0, groups)
     return 1 if groups else 0
